@@ -121,6 +121,34 @@ pub fn replace(args: &Args) -> Report {
                     if (safety && got_s.is_err()) || (!safety && !matches!(&got_s, Ok(Ok(g)) if g.as_bytes() == &want_s[..])) {
                         rfail(&rep, "replace_all(&str)", &cfg, pats, hb, format!("expected '{}', got {:?}", show(&want_s), got_s.map(|r| r.map(|v| show(v.as_bytes())))));
                     }
+                    // a table in which every replacement has exactly the byte length of its pattern
+                    // (an implementation might patch such replacements in place)
+                    if pats.iter().all(|p| !p.is_empty()) {
+                        let same_s: Vec<String> = pats.iter().map(|p| "x".repeat(p.len())).collect();
+                        let same_b: Vec<Vec<u8>> = same_s.iter().map(|s| s.as_bytes().to_vec()).collect();
+                        let want_same = oracle::splice(hb, &ms_s, &same_b);
+                        let got_same = catch_unwind(AssertUnwindSafe(|| match &b {
+                            Built::Top(t) => t.try_replace_all(h, &same_s).map_err(|e| e.to_string()),
+                            Built::NC(a) => a.try_replace_all(h, &same_s).map_err(|e| e.to_string()),
+                            Built::C(a) => a.try_replace_all(h, &same_s).map_err(|e| e.to_string()),
+                            Built::D(a) => a.try_replace_all(h, &same_s).map_err(|e| e.to_string()),
+                        }));
+                        rep.case(!ms.is_empty());
+                        if (safety && got_same.is_err()) || (!safety && !matches!(&got_same, Ok(Ok(g)) if g.as_bytes() == &want_same[..])) {
+                            rfail(&rep, "replace_all(&str, same-length table)", &cfg, pats, hb, format!("expected '{}', got {:?}", show(&want_same), got_same.map(|r| r.map(|v| show(v.as_bytes())))));
+                        }
+                        let want_same_b = oracle::splice(hb, &ms, &same_b);
+                        let got_same_b = catch_unwind(AssertUnwindSafe(|| match &b {
+                            Built::Top(t) => t.try_replace_all_bytes(hb, &same_b).map_err(|e| e.to_string()),
+                            Built::NC(a) => a.try_replace_all_bytes(hb, &same_b).map_err(|e| e.to_string()),
+                            Built::C(a) => a.try_replace_all_bytes(hb, &same_b).map_err(|e| e.to_string()),
+                            Built::D(a) => a.try_replace_all_bytes(hb, &same_b).map_err(|e| e.to_string()),
+                        }));
+                        rep.case(!ms.is_empty());
+                        if (safety && got_same_b.is_err()) || (!safety && !matches!(&got_same_b, Ok(Ok(g)) if *g == want_same_b)) {
+                            rfail(&rep, "replace_all_bytes(same-length table)", &cfg, pats, hb, format!("expected '{}', got {:?}", show(&want_same_b), got_same_b.map(|r| r.map(|v| show(&v)))));
+                        }
+                    }
                     // closure variants with early stop after k matches: the remainder is copied verbatim
                     for stop in 0..=3usize {
                         let mut want = b"0123456789012345678901234567890123456789".to_vec();
@@ -326,7 +354,9 @@ pub fn cfgprod(args: &Args) -> Report {
         vec![b"bc".to_vec(), b"".to_vec(), b"abcd".to_vec()],
         (0..120u8).map(|i| vec![b'a' + i % 26, b'0' + i % 10, i]).collect(),
     ];
-    let hays: Vec<&[u8]> = if thorough { vec![b"", b"a", b"abcd", b"xxabcxx", b"zzzzzz", b"abababab"] } else { vec![b"", b"abcd", b"zzab"] };
+    let big: Vec<u8> = vec![b'~'; 70_000];   // beyond any size threshold, no byte of any pattern
+    let mut hays: Vec<&[u8]> = if thorough { vec![b"", b"a", b"abcd", b"xxabcxx", b"zzzzzz", b"abababab"] } else { vec![b"", b"abcd", b"zzab"] };
+    hays.push(&big);
     let mut items = vec![];
     for mk in [Kind::Std, Kind::LF, Kind::LL] {
         for sk in [StartKindC::U, StartKindC::A, StartKindC::B] {
@@ -387,6 +417,10 @@ pub fn meta(args: &Args) -> Report {
     lists.push(vec![vec![], vec![], vec![]]);
     lists.push(vec![b"dup".to_vec(), b"dup".to_vec(), b"du".to_vec(), b"dup".to_vec()]);
     lists.push((0..101u16).map(|i| format!("p{}q", i).into_bytes()).collect());
+    // only long patterns (every pattern longer than a machine word has bits: the packed
+    // searcher's hash window, shift amounts)
+    lists.push(vec![(0..70u8).map(|i| b'a' + i % 23).collect(), (0..90u8).map(|i| b'z' - i % 19).collect()]);
+    lists.push(vec![(0..65u8).map(|i| b'a' + i % 7).collect(), (0..64u8).map(|i| b'k' + i % 5).collect(), (0..129u8).map(|i| b'A' + i % 11).collect()]);
     let big = if thorough { 5000 } else { 1200 };
     lists.push((0..big as u32).map(|i| format!("{:x}-{}", i.wrapping_mul(2654435761), i).into_bytes()).collect());
     lists.extend(family("small", false, seed).lists.into_iter().step_by(5));
@@ -612,6 +646,104 @@ pub fn meta(args: &Args) -> Report {
 }
 
 // ------------------------------------------------------------------------------------------
+// C19: the cost of a search grows linearly with the span also where the automaton counters do not
+// see the work (inside a prefilter): time for 8n bytes vs n bytes on adversarial haystacks
+// ------------------------------------------------------------------------------------------
+pub fn scaling(_args: &Args) -> Report {
+    let rep = Report::new(
+        "scaling",
+        "pattern lists selecting each prefilter variant (rare bytes 1/2/3, start bytes 1/2/3, packed, memmem) and none; haystacks = one byte of the patterns' alphabet repeated, and two of them alternating; lengths n = 20000 and 8n; kinds standard and leftmost-first; front end and noncontiguous NFA".into(),
+        "case = (list, kind, engine, haystack shape): min-of-5 thread CPU time of find_iter().count() at 8n divided by that at n must stay below 30 (linear = 8, quadratic = 64); measurements below 40 microseconds are skipped".into(),
+    );
+    let lists: Vec<Vec<&[u8]>> = vec![
+        vec![b"abcQ", b"defQx"],
+        vec![b"alphaQ", b"betaQ", b"gammaZ", b"deltaZ"],
+        vec![b"alphaQ", b"betaQ", b"gammaZ", b"deltaZ", b"epsilon#", b"zeta#"],
+        vec![b"foo", b"far"],
+        vec![b"foo", b"bar"],
+        vec![b"foo", b"bar", b"quux"],
+        vec![b"foobar", b"quux", b"bazz", b"xyzzy", b"lmnop"],
+        vec![b"needle"],
+        vec![b"aaaaaaab", b"ab", b"b"],
+    ];
+    // CPU time of this thread (not wall time: the checks run in parallel on a loaded machine)
+    #[repr(C)]
+    struct Timespec {
+        tv_sec: i64,
+        tv_nsec: i64,
+    }
+    extern "C" {
+        fn clock_gettime(clk: i32, ts: *mut Timespec) -> i32;
+    }
+    let cpu_now = || -> f64 {
+        let mut ts = Timespec { tv_sec: 0, tv_nsec: 0 };
+        // CLOCK_THREAD_CPUTIME_ID = 3 on Linux
+        let rc = unsafe { clock_gettime(3, &mut ts) };
+        if rc != 0 {
+            return f64::NAN;
+        }
+        ts.tv_sec as f64 + ts.tv_nsec as f64 * 1e-9
+    };
+    let time = |f: &dyn Fn() -> usize| -> f64 {
+        let mut best = f64::MAX;
+        for _ in 0..5 {
+            let t = cpu_now();
+            std::hint::black_box(f());
+            best = best.min(cpu_now() - t);
+        }
+        best
+    };
+    let mut max_ratio = 0f64;
+    for pats in &lists {
+        let mut alpha: Vec<u8> = pats.iter().flat_map(|p| p.iter().cloned()).collect();
+        alpha.sort();
+        alpha.dedup();
+        let mut shapes: Vec<Vec<u8>> = alpha.iter().map(|&b| vec![b]).collect();
+        for w in alpha.windows(2) {
+            shapes.push(vec![w[0], w[1]]);
+        }
+        shapes.push(pats[0][..pats[0].len() - 1].to_vec());
+        for mk in [Kind::Std, Kind::LF] {
+            for engine in [Engine::TopAuto, Engine::LowNonContig] {
+                let cfg = Cfg { engine, sk: StartKindC::U, mk, ci: false, pre: true, dd: None, bc: true };
+                let owned: Vec<Vec<u8>> = pats.iter().map(|p| p.to_vec()).collect();
+                let b = match build(&cfg, &owned) {
+                    Ok(b) => b,
+                    Err(_) => continue,
+                };
+                for shape in &shapes {
+                    let n = 20_000usize;
+                    let h1: Vec<u8> = shape.iter().cycle().take(n).cloned().collect();
+                    let h8: Vec<u8> = shape.iter().cycle().take(8 * n).cloned().collect();
+                    let run = |h: &[u8]| -> usize { b.try_find_iter(h, 0, h.len(), false).map(|v| v.len()).unwrap_or(0) };
+                    let t1 = time(&|| run(&h1));
+                    if t1 < 40e-6 {
+                        continue;
+                    }
+                    let t8 = time(&|| run(&h8));
+                    rep.case(true);
+                    max_ratio = max_ratio.max(t8 / t1);
+                    if t8 / t1 > 30.0 {
+                        // measure twice more before reporting (cache / frequency noise)
+                        let (t1b, t8b) = (time(&|| run(&h1)), time(&|| run(&h8)));
+                        let (t1c, t8c) = (time(&|| run(&h1)), time(&|| run(&h8)));
+                        if t8b / t1b > 30.0 && t8c / t1c > 30.0 && t8b.min(t8c) / t1b.max(t1c) > 24.0 {
+                            rep.fail(Fail {
+                                key: format!("scaling:{}:{}:{}", show_pats(&owned), mk.name(), show(shape)),
+                                what: format!("the cost of a search is not linear in the span: patterns {} [{}], haystack '{}' repeated: {:.3} ms for {} bytes, {:.3} ms for {} bytes (x{:.1}; linear would be x8)", show_pats(&owned), cfg.encode(), show(shape), t1b * 1e3, n, t8b * 1e3, 8 * n, t8b / t1b),
+                                argv: vec!["scaling".into()],
+                            });
+                        }
+                    }
+                }
+            }
+        }
+    }
+    rep.count("largest_ratio_x10", (max_ratio * 10.0) as usize);
+    rep
+}
+
+// ------------------------------------------------------------------------------------------
 // C04 on large automata: identifiers beyond 2^16 states / 2^24 table offsets
 // ------------------------------------------------------------------------------------------
 pub fn bigkinds(_args: &Args) -> Report {
@@ -693,6 +825,10 @@ pub fn purity(args: &Args) -> Report {
         l.push(b"inter".to_vec());
         crowded.push(l);
         crowded.push((0..40u8).map(|k| vec![b'a', b'b', b'a' + (k % 26), b'0' + (k / 26), b'z']).chain(std::iter::once(b"ab".to_vec())).collect());
+        // lists whose patterns are not already in priority order (a clone must keep the ids), and
+        // the first lists of the packed families
+        crowded.push(vec![b"ab".to_vec(), b"abcd".to_vec(), b"needle-xyz".to_vec(), b"abc".to_vec(), b"zq".to_vec(), b"needle".to_vec()]);
+        crowded.extend(crate::packedc::lists(false, seed).into_iter().filter(|l| l.len() >= 2 && l.len() <= 70).take(60));
         for pats in &crowded {
             let mut hays: Vec<Vec<u8>> = vec![];
             for p in pats.iter().rev().take(3).chain(pats.iter().take(3)) {
@@ -710,7 +846,13 @@ pub fn purity(args: &Args) -> Report {
                     b.build()
                 };
                 if let (Some(s1), Some(fresh)) = (build_packed(), build_packed()) {
-                    let s2 = s1.clone();
+                    let s2 = match catch_unwind(AssertUnwindSafe(|| s1.clone())) {
+                        Ok(c) => c,
+                        Err(_) => {
+                            rep.fail(Fail { key: format!("purity:packed-clone-panic:{}", show_pats(&pats[..pats.len().min(3)])), what: format!("cloning a packed searcher ({}) for {} panicked", mk.name(), show_pats(&pats[..pats.len().min(3)])), argv: vec!["purity".into()] });
+                            continue;
+                        }
+                    };
                     let base: Vec<Option<M>> = hays.iter().map(|h| fresh.find(h).map(cv)).collect();
                     for round in 0..3 {
                         for (i, h) in hays.iter().enumerate() {
@@ -720,7 +862,7 @@ pub fn purity(args: &Args) -> Report {
                                 rep.case(true);
                                 let got = s.find(h).map(cv);
                                 if got != base[i] {
-                                    rep.fail(Fail { key: format!("purity:packed:{}", show_pats(&pats[..3])), what: format!("packed {} ({}): the result of a search depends on earlier searches: '{}' gives {:?}, a fresh searcher {:?}", name, mk.name(), show(h), got, base[i]), argv: vec!["purity".into()] });
+                                    rep.fail(Fail { key: format!("purity:packed:{}", show_pats(&pats[..pats.len().min(3)])), what: format!("packed {} ({}): the result of a search depends on earlier searches: '{}' gives {:?}, a fresh searcher {:?}", name, mk.name(), show(h), got, base[i]), argv: vec!["purity".into()] });
                                 }
                             }
                         }
@@ -735,7 +877,7 @@ pub fn purity(args: &Args) -> Report {
                             rep.case(true);
                             let got: Vec<M> = a1.find_iter(&hays[i]).map(cv).collect();
                             if got != base[i] {
-                                rep.fail(Fail { key: format!("purity:top:{}", show_pats(&pats[..3])), what: format!("AhoCorasick ({}): the result of a search depends on earlier searches: '{}' gives {:?}, a fresh searcher {:?}", mk.name(), show(&hays[i]), got, base[i]), argv: vec!["purity".into()] });
+                                rep.fail(Fail { key: format!("purity:top:{}", show_pats(&pats[..pats.len().min(3)])), what: format!("AhoCorasick ({}): the result of a search depends on earlier searches: '{}' gives {:?}, a fresh searcher {:?}", mk.name(), show(&hays[i]), got, base[i]), argv: vec!["purity".into()] });
                             }
                         }
                     }
